@@ -119,6 +119,7 @@ type loopInfo struct {
 	ordinal int
 	con     *LoopContract
 	d0      string // decreases value at head
+	d02     string
 	stmt    ast.Node
 	headSt  *State
 	autoRI  *ssa.Alloc
@@ -576,6 +577,10 @@ func (f *FuncVC) frameCheck(st *State, loc *PtrInfo) {
 		case "elems":
 			if m.heap == loc.Heap {
 				ok = append(ok, eq(obj, m.obj))
+			}
+		case "heap":
+			if m.heap == loc.Heap {
+				return
 			}
 		}
 	}
